@@ -202,8 +202,15 @@ class World:
             def getuser(self):
                 return world.env.user
 
-        self._saved = (authentication.os, authentication.getpass)
-        authentication.os = OsProxy()
+        # `getpass` is replaced by the test suite the same way (pinned); `os` is an unpinned module global: every
+        # global of txdbus.authentication that IS the os module gets the proxy, and os.urandom itself is
+        # replaced too, so that a differently imported urandom still yields the environment's bytes
+        self._saved_os = [(k, v) for k, v in vars(authentication).items() if v is os]
+        for k, _ in self._saved_os:
+            setattr(authentication, k, OsProxy())
+        self._real_urandom = os.urandom
+        os.urandom = lambda n: (world.env.rnd * n)[:n] if world.env is not None else self._real_urandom(n)
+        self._saved = (None, getattr(authentication, 'getpass', None))
         authentication.getpass = GetPass()
         self._home = os.environ.get('HOME')
 
@@ -223,7 +230,11 @@ class World:
         return self._conn_classes[key]
 
     def restore(self):
-        self.authentication.os, self.authentication.getpass = self._saved
+        for k, v in self._saved_os:
+            setattr(self.authentication, k, v)
+        os.urandom = self._real_urandom
+        if self._saved[1] is not None:
+            self.authentication.getpass = self._saved[1]
         try:
             del self.authentication.open
         except AttributeError:
